@@ -342,9 +342,10 @@ Proof. reflexivity. Qed.
 
 From Rawr Require Import CountFacts.
 
+Definition gk (g : Gen) : N := fst (fst (fst g)).
 Definition NCsane (p : Position) (g : Gen) : Prop :=
-  exists k, sane p (gen_mv g) k /\
-            (k = PAWN -> rank_of (m_to (gen_mv g)) = rank_of (m_from (gen_mv g)) + 1 \/ m_to (gen_mv g) = m_from (gen_mv g) + 16).
+  sane p (gen_mv g) (gk g) /\
+            (gk g = PAWN -> rank_of (m_to (gen_mv g)) = rank_of (m_from (gen_mv g)) + 1 \/ m_to (gen_mv g) = m_from (gen_mv g) + 16).
 
 Section PieceBlocks.
 Variable p : Position.
@@ -361,7 +362,7 @@ Qed.
 Lemma piece_move_sane k from to : k <= 5 -> k <> PAWN -> from < 64 -> to < 64 ->
   ub p from = true -> pb p k from = true -> ub p to = false -> NCsane p (k, from, to, NOPIECE).
 Proof.
-  intros Hk Hn Hf Ht Hu Hp Hnt. exists k. cbn [gen_mv]. split; [|intros E; contradiction].
+  intros Hk Hn Hf Ht Hu Hp Hnt. unfold NCsane. cbn [gen_mv gk fst]. split; [|intros E; contradiction].
   apply (mk_sane p G); try assumption; [|left; reflexivity].
   intros Hb. rewrite (not_ep_piece p from to NOPIECE k Hn) in Hb; [discriminate|].
   apply (ours_holds p (g_wf p G)); assumption.
@@ -456,7 +457,7 @@ Lemma pawn_move_sane from to pr : from < 64 -> to < 64 -> ub p from = true -> pb
   mv_is_ep p (mkMv from to pr) = false -> (pr = NOPIECE \/ 1 <= pr <= 4) ->
   (rank_of to = rank_of from + 1 \/ to = from + 16) -> NCsane p (PAWN, from, to, pr).
 Proof.
-  intros Hf Ht Hu Hp Hnt Hne Hpr Hgeo. exists PAWN. cbn [gen_mv m_from m_to]. split; [|intros _; exact Hgeo].
+  intros Hf Ht Hu Hp Hnt Hne Hpr Hgeo. unfold NCsane. cbn [gen_mv m_from m_to gk fst]. split; [|intros _; exact Hgeo].
   apply (mk_sane p G); try assumption; try (unfold PAWN; lia).
   all: try (intros Hb; rewrite Hne in Hb; discriminate).
   all: destruct Hpr as [E|E]; [left; exact E|right; split; [reflexivity|exact E]].
@@ -572,7 +573,7 @@ Proof.
         match goal with X : N.testbit _ (e - 7) = true |- _ => rewrite !N.land_spec in X; repeat (apply andb_true_iff in X; destruct X as [X ?]) end.
         unfold ub, pb, is_set, rank_of, file_of. cbn [get_piece]. repeat split; try assumption; lia. }
     cbv zeta in Hsrc. destruct Hsrc as (Hd & Hu & Hp & Hr & Hfile).
-    exists PAWN. cbn [gen_mv m_from m_to]. split; [|intros _; left; exact Hr].
+    unfold NCsane. cbn [gen_mv m_from m_to gk fst]. split; [|intros _; left; exact Hr].
     apply (mk_sane p G); try assumption; try (unfold PAWN; lia); try (destruct ne; lia).
     all: try (destruct Hemp as (Hue & _); exact Hue).
     all: try (intros _; exact Ee).
@@ -674,10 +675,10 @@ Qed.
 End CastleBlock.
 
 (* ------------------------------------------------------------------ every generated move, classified *)
-Theorem generated_move_sane p g : Good p -> CastleGood p -> In g (move_generator p) ->
-  NCsane p g \/ (csane p (gen_mv g) true /\ us_ksc p = true) \/ (csane p (gen_mv g) false /\ us_qsc p = true).
+Theorem generated_move_cases p g : Good p -> In g (move_generator p) ->
+  NCsane p g \/ In g (blk_castle_k p) \/ In g (blk_castle_q p).
 Proof.
-  intros G CG Hg. rewrite generator_blocks in Hg.
+  intros G Hg. rewrite generator_blocks in Hg.
   repeat (apply in_app_or in Hg; destruct Hg as [Hg|Hg]).
   - left. exact (singles_block p G g Hg).
   - left. exact (doubles_block p G g Hg).
@@ -697,8 +698,17 @@ Proof.
     intros s H. rewrite N.land_spec in H. apply andb_true_iff in H. exact (proj1 H).
   - left. change (queens p) with (get_piece p QUEEN) in Hg. refine (slider_block p G QUEEN qatt _ _ g _ _ _ Hg); try (unfold QUEEN, PAWN; lia). intros s H. exact H.
   - left. exact (king_block p G g Hg).
-  - right. left. exact (castle_block_k p G CG g Hg).
-  - right. right. exact (castle_block_q p G CG g Hg).
+  - right. left. exact Hg.
+  - right. right. exact Hg.
+Qed.
+
+Theorem generated_move_sane p g : Good p -> CastleGood p -> In g (move_generator p) ->
+  NCsane p g \/ (csane p (gen_mv g) true /\ us_ksc p = true) \/ (csane p (gen_mv g) false /\ us_qsc p = true).
+Proof.
+  intros G CG Hg. destruct (generated_move_cases p g G Hg) as [H|[H|H]].
+  - left. exact H.
+  - right. left. exact (castle_block_k p G CG g H).
+  - right. right. exact (castle_block_q p G CG g H).
 Qed.
 
 Lemma king_comm p : popcount (N.land (c_us p) (kings p)) = popcount (N.land (kings p) (c_us p)).
@@ -710,7 +720,7 @@ Theorem legal_moves_refine u p m : Good p -> CastleGood p -> In m (legal_moves p
 Proof.
   intros G CG Hm. unfold legal_moves in Hm. apply in_map_iff in Hm. destruct Hm as (g & <- & Hg).
   assert (Hku : popcount (N.land (c_us p) (kings p)) = 1) by (rewrite king_comm; exact (g_king p G)).
-  destruct (generated_move_sane p g G CG Hg) as [(k & S & Hpw) | [(S & _) | (S & _)]].
+  destruct (generated_move_sane p g G CG Hg) as [(S & Hpw) | [(S & _) | (S & _)]]. 1: set (k := gk g) in *.
   - exact (makemove_refines_noncastling u p (gen_mv g) k S (g_dis p G) Hku (g_cf p G) Hpw).
   - exact (makemove_refines_castling u p (gen_mv g) true S (g_dis p G) Hku (g_cf p G)).
   - exact (makemove_refines_castling u p (gen_mv g) false S (g_dis p G) Hku (g_cf p G)).
@@ -733,7 +743,7 @@ Proof.
   assert (Hepl : forall e, ep p = Some e -> e < 64) by (intros e He; destruct (g_ep p G e He) as ((_ & H) & _); exact H).
   assert (Hbk : us_ksc p = true -> holds p (sq_of (cf0 p) 0) false ROOK) by (intros H; exact (proj1 (cg_k p CG H))).
   assert (Hbq : us_qsc p = true -> holds p (sq_of (cf1 p) 0) false ROOK) by (intros H; exact (proj1 (cg_q p CG H))).
-  destruct (generated_move_sane p g G CG Hg) as [(k & S & Hpw) | [(S & Hf) | (S & Hf)]].
+  destruct (generated_move_sane p g G CG Hg) as [(S & Hpw) | [(S & Hf) | (S & Hf)]]. 1: set (k := gk g) in *.
   - exact (predict_noncastling u p (gen_mv g) k S (g_dis p G) Hku (g_bb p G) (g_wf p G) Hepl Hbk Hbq (kg_tk p KG) (kg_tq p KG) Hpw (kg_hash p KG)).
   - apply (predict_castling u p (gen_mv g) true S (g_dis p G) Hku (g_bb p G) (g_wf p G) Hbk Hbq Hf); [| |exact (kg_hash p KG)].
     + intros H. (* the generated castling move starts from the king's square *)
